@@ -79,6 +79,12 @@ struct parquet_schema_element {
     /* Field 10: logicalType (modern logical type) */
     bool has_logical_type;
     carquet_logical_type_t logical_type;
+
+    /* Not serialized: levels of this node within its schema tree (number of
+     * optional+repeated / repeated nodes on the path from the root, this node
+     * included), filled in when the schema is built */
+    int16_t max_def_level;
+    int16_t max_rep_level;
 };
 
 /* ============================================================================
